@@ -120,3 +120,83 @@ func (n *normalizer) outlineRound() bool {
 	}
 	return false
 }
+
+// forPostRound: `for init; cond; helper() { body }` with a call of a new helper as the post statement and no `continue`
+// in the body becomes `for init; cond; { body; helper() }`, where the call is in a position the inliner supports. Without
+// a `continue` the post statement runs exactly when the end of the body is reached, so nothing changes.
+func (n *normalizer) forPostRound() bool {
+	changed := false
+	for _, f := range n.pp.Syntax {
+		filename := n.fset.File(f.Pos()).Name()
+		ast.Inspect(f, func(x ast.Node) bool {
+			fs, ok := x.(*ast.ForStmt)
+			if !ok || fs.Post == nil || changed {
+				return true
+			}
+			es, ok := fs.Post.(*ast.ExprStmt)
+			if !ok {
+				return true
+			}
+			call, ok := es.X.(*ast.CallExpr)
+			if !ok {
+				return true
+			}
+			callee, _ := n.calleeOf(call)
+			if callee == nil || !n.helpers[callee] {
+				return true
+			}
+			// no continue that targets this loop
+			bad := false
+			var walk func(nd ast.Node, nested bool)
+			walk = func(nd ast.Node, nested bool) {
+				ast.Inspect(nd, func(y ast.Node) bool {
+					if bad || y == nil {
+						return false
+					}
+					switch z := y.(type) {
+					case *ast.FuncLit:
+						return false
+					case *ast.BranchStmt:
+						if z.Tok.String() == "continue" && (z.Label != nil || !nested) {
+							bad = true
+						}
+						if z.Tok.String() == "goto" {
+							bad = true
+						}
+					case *ast.ForStmt:
+						if y != nd {
+							walk(z.Body, true)
+							return false
+						}
+					case *ast.RangeStmt:
+						if y != nd {
+							walk(z.Body, true)
+							return false
+						}
+					}
+					return true
+				})
+			}
+			walk(fs.Body, false)
+			if bad {
+				return true
+			}
+			ps, pe := n.off(fs.Post.Pos()), n.off(fs.Post.End())
+			be := n.off(fs.Body.Rbrace)
+			if n.overlaps(filename, ps, pe) || n.overlaps(filename, be, be) {
+				return true
+			}
+			text := n.src(filename, fs.Post.Pos(), fs.Post.End())
+			line := n.fset.Position(fs.Post.Pos()).Line
+			n.addEdit(filename, ps, pe, "")
+			n.addEdit(filename, be, be, "\n"+n.lineDirective(filename, line)+text+"\n"+n.lineDirective(filename, n.fset.Position(fs.Body.Rbrace).Line))
+			n.notes = append(n.notes, fmt.Sprintf("post statement of the loop at %s:%d moved to the end of its body", shortFile(filename), line))
+			changed = true
+			return false
+		})
+		if changed {
+			break
+		}
+	}
+	return changed
+}
